@@ -266,6 +266,14 @@ for _pid, (_t, _x) in ADD6.items():
     CLAIMED[_pid]["technique"] += _t
     CLAIMED[_pid]["text"] += _x
 
+# rules added in the session of 2026-09-29 (sixth round)
+ADD7 = {
+    "C09": ("; close-error typestate of the archive writers the export creates", " Also: the error of finishing the tar stream and the compressed stream reaches the caller of the export (found D20)."),
+}
+for _pid, (_t, _x) in ADD7.items():
+    CLAIMED[_pid]["technique"] += _t
+    CLAIMED[_pid]["text"] += _x
+
 def main():
     props = [json.loads(l)["id"] for l in open("/verif/properties.jsonl")]
     checks = []
